@@ -1,0 +1,28 @@
+//go:build verif
+
+package phase2
+
+import (
+	"github.com/nulab/autog/internal/graph"
+	imonitor "github.com/nulab/autog/internal/monitor"
+)
+
+// VerifNsExit describes how the pivot loop of the network simplex ended.
+type VerifNsExit struct {
+	Pivots  int
+	MaxIter int
+	Reason  string // "optimal" | "capped" | "no-entering-edge"
+}
+
+// verifReportExit reports, through the monitor of the running Layout call, why the pivot loop stopped.
+func verifReportExit(pivots, maxitr int, leaving *graph.Edge) {
+	reason := "optimal"
+	if leaving != nil {
+		if pivots >= maxitr {
+			reason = "capped"
+		} else {
+			reason = "no-entering-edge"
+		}
+	}
+	imonitor.Log("verif-ns-exit", VerifNsExit{Pivots: pivots, MaxIter: maxitr, Reason: reason})
+}
